@@ -805,7 +805,9 @@ def t_wrapper(E):
             E.oblige(Q + '/ensures.own_event_set_on_every_exit[%s]' % kind, s.ev_set[e_], props={'C05', 'C06'},
                      detail='waiters of a computation that ended (also one whose marker was taken over) must be woken, not left to the 60 s safety timeout')
             E.oblige(Q + '/ensures.own_marker_removed_on_every_exit[%s]' % kind,
-                     z3.Not(z3.And(s.m_has, s.m_ev == e_)), props={'C05', 'C01'})
+                     z3.Not(z3.And(s.m_has, s.m_ev == e_)), props={'C05', 'C01', 'C14'},
+                     detail='a marker that outlives its computation makes later callers (e.g. after an eviction) wait for '
+                            'a computation that is over')
         E.oblige(Q + '/ensures.lock_not_held_at_exit', z3.Not(mine_lock(s, me)), props={'C05'})
         # ---- C14 frame: the wrapped function gets exactly (*args, **kwargs)
         if opts.get('user_calls'):
